@@ -2,6 +2,7 @@
 facts from the driver's event log, the two direct oracles (literal transcriptions of the property statements over
 implementation observations - they never look at the Coq model) and the Coq literal printers."""
 import json
+import random
 
 import common as C
 from cli_args import cli_argv
@@ -636,13 +637,39 @@ LIVES = ([], [], ["startup"], ["startup"], ["startup", "shutdown", "startup"], [
          ["startup", "shutdown", "startup", "shutdown", "startup"])
 
 
+LISTEN_FAULT_NAMES = ("connection", "connection", "runtime", "timeout", "os", "eof", "custom")
+
+
+def api_kwargs(r, validate, prop, ack):
+    """keyword arguments for run_receiver_task (its own parameter names); switches that have their default value are
+    passed or left out"""
+    kw = {}
+    if not validate or r.random() < .5:
+        kw["validate_params"] = validate
+    if not prop or r.random() < .5:
+        kw["propagate_exceptions"] = prop
+    if ack != "when_saved" or r.random() < .5:
+        kw["ack_time"] = ack
+    if r.random() < .5:
+        kw["max_async_tasks"] = r.choice([1, 2, 10, 0])
+    if r.random() < .3:
+        kw["max_prefetch"] = r.choice([0, 1, 3])
+    if r.random() < .3:
+        kw["sync_workers"] = r.choice([1, 2])
+    if r.random() < .2:
+        kw["run_startup"] = r.random() < .5
+    return kw
+
+
 def add_path(r, case):
     """how the Receiver that executes the deliveries comes to exist (see deps_driver): for about a fifth of the cases
     not built by the driver itself but by the worker command line, by taskiq.api.run_receiver_task, or by an
     InMemoryBroker - fresh, started, or started again after a shutdown - to which the deliveries are sent through its
-    real kick() / the real kicker.  The case's propagate / validate / ack stay what was asked for."""
+    real kick() / the real kicker; for another twentieth the run_receiver_task coroutine itself runs for the whole case
+    over a scripted listen() that fails 0..2 times (a dropped connection), so that the deliveries are executed by the
+    first / second / third Receiver it builds.  The case's propagate / validate / ack stay what was asked for."""
     x = r.random()
-    if x >= .21:
+    if x >= .26:
         return case
     prop, validate, ack = bool(case.get("propagate", True)), bool(case.get("validate", True)), case.get("ack", "when_saved")
     if x < .05:
@@ -659,22 +686,13 @@ def add_path(r, case):
             o["wtt"] = r.choice([0.5, 2.0])
         case["path"] = {"kind": "cli", "argv": cli_argv(o)}
     elif x < .09:
-        kw = {}
-        if not validate or r.random() < .5:
-            kw["validate_params"] = validate
-        if not prop or r.random() < .5:
-            kw["propagate_exceptions"] = prop
-        if ack != "when_saved" or r.random() < .5:
-            kw["ack_time"] = ack
-        if r.random() < .5:
-            kw["max_async_tasks"] = r.choice([1, 2, 10, 0])
-        if r.random() < .3:
-            kw["max_prefetch"] = r.choice([0, 1, 3])
-        if r.random() < .3:
-            kw["sync_workers"] = r.choice([1, 2])
-        if r.random() < .2:
-            kw["run_startup"] = r.random() < .5
-        case["path"] = {"kind": "api", "kwargs": kw}
+        case["path"] = {"kind": "api", "kwargs": api_kwargs(r, validate, prop, ack)}
+    elif x >= .21:
+        # run_receiver_task running for real, its listen() failing 0..2 times.  Drawn from a generator of its own (seeded
+        # by x), so that the rest of the stream is what it was before this kind of input existed.
+        rr = random.Random(int(x * 2 ** 53))
+        drops = [[rr.choice([0, 0, 1, 1, 2, 3]), rr.choice(LISTEN_FAULT_NAMES)] for _ in range(rr.choice([0, 1, 1, 1, 2, 2]))]
+        case["path"] = {"kind": "api", "kwargs": api_kwargs(rr, validate, prop, ack), "run": {"drops": drops}}
     else:
         path = {"kind": "inmemory", "life": list(r.choice(LIVES)), "send": r.choice(["kick", "kicker"])}
         if has_wire_strings(case):
@@ -706,6 +724,9 @@ def path_profile(case):
         return ["receiver: built directly" if not (case.get("via_inmemory") and case.get("ack", "when_saved") == "when_saved")
                 else "receiver: the InMemoryBroker's own, callback called directly"]
     ask = "propagate=%s" % bool(case.get("propagate", True))
+    if path["kind"] == "api" and path.get("run") is not None:
+        return ["receiver: built by run_receiver_task running for real, listen() fails %d times, %s" % (
+            len(path["run"].get("drops") or []), ask)]
     if path["kind"] in ("cli", "api"):
         return ["receiver: configured through the %s, %s" % (
             "worker command line" if path["kind"] == "cli" else "programmatic API (run_receiver_task)", ask)]
@@ -716,6 +737,28 @@ def path_profile(case):
     keys = ["receiver: InMemoryBroker %s, %s" % (phase, ask),
             "sent through InMemoryBroker: %s%s" % ("the task's kicker" if path.get("send") == "kicker" else "kick()",
                                                    ", await_inplace" if path.get("await_inplace") else "")]
+    return keys
+
+
+def live_profile(case, obs, ex):
+    """evidence keys of a case run under the real run_receiver_task: which of the receivers it built executed the
+    deliveries, and whether the situation the propagate switch is about arose on a replacement receiver"""
+    live = obs.get("live")
+    if not live:
+        return []
+    keys = ["run_receiver_task live: listen() actually failed %d times" % len(live["faults"])]
+    keys += ["run_receiver_task live: listen() failed with %s" % name for _, name in live["faults"]]
+    for d in ex:
+        no = live["executed_by_receiver"][d.i]
+        if no is None:
+            continue
+        which = "the first receiver" if no == 0 else "a replacement receiver (#%d)" % (no + 1)
+        keys.append("run_receiver_task live: delivery executed by %s" % which)
+        if no > 0 and d.error_found and d.closes:
+            keys.append("run_receiver_task live: failed execution with open dependencies on a replacement receiver, propagate=%s"
+                        % bool(case.get("propagate", True)))
+        if no == 0 and live["faults"] and d.cb_done_at is not None and d.closes:
+            keys.append("run_receiver_task live: execution with open dependencies on the first receiver, which was replaced")
     return keys
 
 
@@ -1715,6 +1758,20 @@ def reductions(case):
         # the receiver built directly by the driver instead (an InMemoryBroker case has nothing to acknowledge: it
         # stays a well-formed direct case)
         variant(lambda c: c.pop("path"))
+        if path["kind"] == "api":
+            for key in list(path.get("kwargs") or {}):
+                if key not in ("propagate_exceptions", "validate_params", "ack_time"):
+                    variant(lambda c, key=key: c["path"]["kwargs"].pop(key))
+            if path.get("run") is not None:
+                drops = path["run"].get("drops") or []
+                variant(lambda c: c["path"].pop("run"))
+                for j in range(len(drops)):
+                    variant(lambda c, j=j: c["path"]["run"]["drops"].pop(j))
+                    if drops[j][0] > 0:
+                        variant(lambda c, j=j: c["path"]["run"]["drops"][j].__setitem__(0, 0))
+                        variant(lambda c, j=j: c["path"]["run"]["drops"][j].__setitem__(0, c["path"]["run"]["drops"][j][0] - 1))
+                    if drops[j][1] != "connection":
+                        variant(lambda c, j=j: c["path"]["run"]["drops"][j].__setitem__(1, "connection"))
         if path["kind"] == "inmemory":
             life = path.get("life") or []
             if life:
